@@ -2,6 +2,7 @@
 package props
 
 import (
+	"strings"
 	"encoding/hex"
 	"fmt"
 	"math/rand"
@@ -42,6 +43,11 @@ type Oracle interface {
 	AfterStep(e *core.Engine, idx int, st *core.Step, stepErr error) []core.Violation
 	Finish(e *core.Engine) []core.Violation
 	NonTrivial(e *core.Engine) bool
+}
+
+// DeathWatcher is implemented by oracles that judge application deaths themselves (C18).
+type DeathWatcher interface {
+	OnDeath(e *core.Engine, idx int, st *core.Step, deaths []string) []core.Violation
 }
 
 // Setup is what a cluster profile draws for one run.
@@ -136,7 +142,18 @@ func (p *ClusterProp) Run(seed uint64, tier string, tr *core.Trace) (out *RunOut
 			panic(core.HarnessError{Msg: "unknown step kind " + st.Kind})
 		}
 		if len(e.Deaths) > 0 {
-			stepErr = fmt.Errorf("application died: %v", e.Deaths)
+			// the application panicked out or closed itself: that is C18's subject. Other oracles must
+			// not touch the dead replica; the run ends here.
+			if dw, ok := or.(DeathWatcher); ok {
+				vs := dw.OnDeath(e, idx, st, e.Deaths)
+				for i := range vs {
+					vs[i].Step = idx
+				}
+				out.Violations = append(out.Violations, vs...)
+			} else {
+				out.Foreign = append(out.Foreign, "application died (C18): "+clipS(strings.Join(e.Deaths, "; "), 160))
+			}
+			return true
 		}
 		return record(idx, st, stepErr)
 	}
@@ -176,6 +193,7 @@ func (p *ClusterProp) Run(seed uint64, tier string, tr *core.Trace) (out *RunOut
 			st := &core.Step{Kind: "block", DtMs: drawDt(rng, e.W.Knobs)}
 			for _, t := range txs {
 				st.Txs = append(st.Txs, hex.EncodeToString(t.Bytes))
+				st.Labels = append(st.Labels, t.Kind)
 				sess.Sent = append(sess.Sent, t)
 			}
 			if su.PlanHook != nil {
@@ -203,6 +221,9 @@ func (p *ClusterProp) Run(seed uint64, tier string, tr *core.Trace) (out *RunOut
 		out.Violations = append(out.Violations, vs...)
 	}
 	out.NonTrivial = or.NonTrivial(e)
+	if ic, ok := or.(interface{ Inputs() int }); ok {
+		out.Inputs = ic.Inputs()
+	}
 	if p.atEnd != nil {
 		p.atEnd(e)
 	}
